@@ -12,11 +12,18 @@ pub struct Receiver { pub _p: () }
 pub trait IntoEvent { spec fn ev(&self) -> Ev; }
 impl IntoEvent for DataUpgrade { open spec fn ev(&self) -> Ev { Ev::DataUpgrade } }
 impl IntoEvent for Have { open spec fn ev(&self) -> Ev { Ev::Have { start: self.start, length: self.length, drop: self.drop } } }
-impl Have {
-    /// `Have::from(&BitfieldUpdate)` (src/replication/events.rs, `impl From<&BitfieldUpdate> for Have`)
-    pub fn from(b: &BitfieldUpdate) -> (r: Have) ensures r.start == b.start, r.length == b.length, r.drop == b.drop
-    { Have { start: b.start, length: b.length, drop: b.drop } }
+impl<'a> vstd::std_specs::convert::FromSpecImpl<&'a BitfieldUpdate> for Have {
+    open spec fn obeys_from_spec() -> bool { true }
+    /// C13: the have event for a bitfield update announces exactly its range
+    open spec fn from_spec(b: &'a BitfieldUpdate) -> Self { Have { start: b.start, length: b.length, drop: b.drop } }
 }
+impl From<&BitfieldUpdate> for Have {
+    /*@ fn src/replication/events.rs From<&BitfieldUpdate> for Have::from ; novis
+    tags: C13
+    sub `(?s)fn from\(\s*BitfieldUpdate \{\s*start,\s*length,\s*drop,\s*\}: &BitfieldUpdate,\s*\) -> Self \{` => `fn from(vp_b: &BitfieldUpdate) -> Self { let BitfieldUpdate { start, length, drop } = vp_b;`
+    @*/
+}
+/*@ item src/replication/events.rs static MAX_EVENT_QUEUE_CAPACITY @*/
 impl Events {
     #[verifier::external_body]
     pub fn new() -> (r: Events) ensures r.trace@ == Seq::<Ev>::empty() { unimplemented!() }
